@@ -298,9 +298,12 @@ def run(cfg, segs=None, perm_seed=None, perm_kinds=None, budget=None, full=True,
             tt = []
             try:
                 tdf = sim._generate_final_task_data()
+                key_of = {str(t.id): k for k, t in proj.all_tasks.items()}
                 for tid, r in tdf.iterrows():
-                    tt.append({"id": str(tid), "est": float(r["est"]), "eft": float(r["eft"]),
-                               "ast": float(r["ast"]), "aft": float(r["aft"]),
+                    o_, k_ = key_of.get(str(tid), ("", 0))
+                    tt.append({"id": str(tid), "o": o_, "k": k_,
+                               "est": float(r["est"]), "eft": float(r["eft"]),
+                               "ast": env.ts(float(r["ast"])), "aft": env.ts(float(r["aft"])),
                                "woff": float(r["workflow_offset"]),
                                "obs": str(r["observation_id"])})
             except Exception as e:  # empty table etc.
